@@ -9,28 +9,39 @@ package linkedlog
 //   what LinkedLog.Put writes and ReadWithSize parses) gives back offset, size, slot and flags.
 // part 1 (flags): the flag setters/getters used by GsfaWriter.Push touch exactly their bit.
 // part 2 (bitmap): Bitmap.Set/Get for every index 0..7, every start byte, both values.
+// part 3 (edge): one record whose three fields are all >= 2^63 (the 31-byte encoding).
+// part 4 (thorough): one record, every field over the full 64-bit range.
 func VerifC06Codec() {
-	switch verifChoice("part", 3+verifParam("full", 0)) {
+	switch verifChoice("part", 4+verifParam("full", 0)) {
 	case 0:
-		verifC06CodecRecords(verifParam("recs", 2), uint(verifParam("bits", 21)))
-	case 3: // thorough: one record over the full 64-bit range of every field (10^3 width combinations)
-		verifC06CodecRecords(1, 64)
+		verifC06CodecRecords(verifParam("recs", 2), uint(verifParam("bits", 21)), 0)
 	case 1:
 		verifC06CodecFlags()
 	case 2:
 		verifC06CodecBitmap()
+	case 3: // the longest encoding: every field >= 2^63 (10 uvarint bytes each, 31 bytes in all)
+		verifC06CodecRecords(1, 64, 63)
+	case 4: // thorough: one record over the full 64-bit range of every field (10^3 width combinations)
+		verifC06CodecRecords(1, 64, 0)
 	}
 	verifReach("end")
 }
 
-func verifC06CodecRecords(maxRecs int, bits uint) {
+func verifC06CodecRecords(maxRecs int, bits uint, minBits uint) {
 	n := 1 + verifChoice("records", maxRecs)
 	recs := make([]OffsetAndSizeAndSlot, n)
 	var all []byte
 	for i := 0; i < n; i++ {
 		o, s, l, f := verifU64("offset"), verifU64("size"), verifU64("slot"), verifU8("flags")
 		if bits < 64 {
-			verifAssume(o < 1<<bits && s < 1<<bits && l < 1<<bits)
+			verifAssume(o < 1<<bits) // one assume per field: `&&` on symbolic operands would fork
+			verifAssume(s < 1<<bits)
+			verifAssume(l < 1<<bits)
+		}
+		if minBits > 0 {
+			verifAssume(o >= 1<<minBits)
+			verifAssume(s >= 1<<minBits)
+			verifAssume(l >= 1<<minBits)
 		}
 		r := OffsetAndSizeAndSlot{Offset: o, Size: s, Slot: l, Flags: Bitmap(f)}
 		recs[i] = r
